@@ -141,7 +141,7 @@ func PrepareExternalNode(ctx context.Context, log *Log, mode, binary string, spe
 		}
 		sort.Strings(ws)
 		for _, w := range ws {
-			fmt.Fprintf(&pb, "    %s: %s\n", w, perms[c][w])
+			fmt.Fprintf(&pb, "    '%s': %s\n", strings.ReplaceAll(w, "'", "''"), perms[c][w]) // the path is a YAML key: quoted, it may be a regular expression
 		}
 	}
 	genTimeout := node.GenTimeout
@@ -629,4 +629,119 @@ func RunRemoteDkg(ctx context.Context, sc *DkgScenario, binary string, log *Log)
 	}
 	log.Emit(Ev{"ev": "End", "sc": sc.ID, "crashed": []uint64{}})
 	return nil
+}
+
+
+type remotePerm struct{ c *grpc.ClientConn }
+
+// runPermScenarioRemote sends the operations of a permission scenario to the REAL dirk binary, whose configuration file carries the
+// scenario's permission entries (main.go's own reading of them is part of what is exercised).  Each client uses a certificate with
+// its name; "" has none.  What cannot be observed from outside (lock state, "changed") is reported as unchanged / empty.
+func runPermScenarioRemote(ctx context.Context, sc *PermScenario, log *Log, binary string) error {
+	perms := map[string]map[string]string{}
+	for _, cp := range sc.World.Perms {
+		if perms[cp.Client] == nil {
+			perms[cp.Client] = map[string]string{}
+		}
+		for _, pe := range cp.Perms {
+			items := make([]string, len(pe.Ops))
+			for i, o := range pe.Ops {
+				items[i] = "'" + strings.ReplaceAll(o, "'", "''") + "'"
+			}
+			perms[cp.Client][pe.Path] = "[" + strings.Join(items, ", ") + "]"
+		}
+	}
+	env, err := PrepareExternal(ctx, log, "bare", binary, sc.World, perms)
+	if err != nil {
+		return err
+	}
+	defer env.Remove()
+	defer env.Kill()
+	if err := env.Start(); err != nil {
+		return err
+	}
+	conns := map[string]*grpc.ClientConn{}
+	closeAll := func() {
+		for k, c := range conns {
+			_ = c.Close()
+			delete(conns, k)
+		}
+	}
+	defer closeAll()
+	conn := func(client string) *grpc.ClientConn {
+		if c, ok := conns[client]; ok {
+			return c
+		}
+		cred := "tls-nocert"
+		if client != "" {
+			cred = "valid-" + client
+		}
+		c, err := env.Dialer().Dial(ctx, cred)
+		if err != nil {
+			return nil
+		}
+		conns[client] = c
+		return c
+	}
+	dl := func(ctx context.Context) (context.Context, context.CancelFunc) { return context.WithTimeout(ctx, 20*time.Second) }
+	tgt := &permTarget{passphrase: env.B.Spec.Passphrase}
+	tgt.sig = func(client string) SignerAPI { return clientSig{pb.NewSignerClient(conn(client))} }
+	tgt.list = func(c context.Context, client string, req *pb.ListAccountsRequest) (*pb.ListAccountsResponse, error) {
+		cc, cancel := dl(c)
+		defer cancel()
+		return pb.NewListerClient(conn(client)).ListAccounts(cc, req)
+	}
+	tgt.acctLock = func(c context.Context, client string, req *pb.LockAccountRequest) (*pb.LockAccountResponse, error) {
+		cc, cancel := dl(c)
+		defer cancel()
+		return pb.NewAccountManagerClient(conn(client)).Lock(cc, req)
+	}
+	tgt.acctUnlock = func(c context.Context, client string, req *pb.UnlockAccountRequest) (*pb.UnlockAccountResponse, error) {
+		cc, cancel := dl(c)
+		defer cancel()
+		return pb.NewAccountManagerClient(conn(client)).Unlock(cc, req)
+	}
+	tgt.generate = func(c context.Context, client string, req *pb.GenerateRequest) (*pb.GenerateResponse, error) {
+		cc, cancel := dl(c)
+		defer cancel()
+		return pb.NewAccountManagerClient(conn(client)).Generate(cc, req)
+	}
+	tgt.walletLock = func(c context.Context, client string, req *pb.LockWalletRequest) (*pb.LockWalletResponse, error) {
+		cc, cancel := dl(c)
+		defer cancel()
+		return pb.NewWalletManagerClient(conn(client)).Lock(cc, req)
+	}
+	tgt.walletUnlock = func(c context.Context, client string, req *pb.UnlockWalletRequest) (*pb.UnlockWalletResponse, error) {
+		cc, cancel := dl(c)
+		defer cancel()
+		return pb.NewWalletManagerClient(conn(client)).Unlock(cc, req)
+	}
+	tgt.pubOf = func(path string) []byte {
+		// accounts of the initial population from the world that was written to disk; accounts created later through a listing
+		if _, a, err := env.B.RawFetch.FetchAccount(ctx, path); err == nil {
+			return a.PublicKey().Marshal()
+		}
+		w, _, _ := strings.Cut(path, "/")
+		for _, client := range []string{"c1"} {
+			cc, cancel := dl(ctx)
+			res, err := pb.NewListerClient(conn(client)).ListAccounts(cc, &pb.ListAccountsRequest{Paths: []string{w}})
+			cancel()
+			if err == nil {
+				for _, a := range res.GetAccounts() {
+					if a.GetName() == path {
+						return a.GetPublicKey()
+					}
+				}
+			}
+		}
+		return nil
+	}
+	tgt.snapshot = func() string { return "" }
+	tgt.locks = func() map[string]bool { return map[string]bool{} }
+	tgt.restart = func() error {
+		closeAll()
+		env.Kill()
+		return env.Start()
+	}
+	return runPermOps(ctx, sc, log, tgt)
 }
